@@ -311,7 +311,7 @@ func (w *World) call(in *Inst, fn int, x int32) (res int32, fail *Fail) {
 			in.Table[a.A] = in.P.PassiveElemFunc()
 		case AElemDrop:
 			in.ElemDropped = true
-		case AStdout, AOpen, AClose:
+		case AStdout, AOpen, AClose, AReaddir, AClock, ARandom:
 			panic("plan model: WASI atoms are not modelled")
 		case ACallGRef:
 			in.Table[SlotGRef] = -3
